@@ -47,6 +47,10 @@ def run(ck):
         plan.append((tree, p, False, False))
         if "/" not in p:
             plan.append((tree, p, True, False))
+    # the shape of link bodies, always: empty components, trailing slashes on files / directories / links
+    for tree, p in gen.link_body_shape_cases():
+        plan.append((tree, p, False, False))
+        plan.append((tree, p, True, False))
     for tree, p, nf, nosym in plan:
         if True:
             base = jid
